@@ -21,6 +21,9 @@ import (
 
 type histCase struct {
 	Ops []vkit.Op `json:"ops"`
+	// Debug: the history runs with mocker.OpenDebug() (call logging wraps every callback); nothing the caller or the
+	// replacement can observe may differ
+	Debug bool `json:"debug_logging,omitempty"`
 }
 
 type tstate struct {
@@ -88,6 +91,11 @@ const nTargets = 4
 
 func runHist(ci interface{}, s *vkit.Stats) (err error) {
 	c := ci.(*histCase)
+	if c.Debug {
+		mocker.OpenDebug()
+		defer mocker.CloseDebug()
+		s.Class("history-with-debug-logging")
+	}
 	b := mocker.Create()
 	dropped := false
 	defer func() {
@@ -313,7 +321,7 @@ func TestVerifC01(t *testing.T) {
 			for i := range ops {
 				ops[i].I[5] = w
 			}
-			return &histCase{Ops: ops}
+			return &histCase{Ops: ops, Debug: rapid.IntRange(0, 5).Draw(rt, "debug") == 0}
 		},
 		Run: runHist}
 	s := p.Main(t, vkit.Scale(2500, 5000))
